@@ -173,7 +173,7 @@ def corpus():
 
 
 def check(run: Run, lean: dict) -> int:
-    n = 1500 if run.tier == "quick" else 40000
+    n = run.budget(1500, 40000)
     run.extra["rule"] = (
         "generated trees with namespaced and un-namespaced elements and attributes mixed at any depth x caller mappings "
         "(none, empty, default, prefixes, prefixes that collide with generated ns0/ns1/ns2, common-namespace prefixes, "
